@@ -33,6 +33,7 @@ def setup(fw):
         def pump():
             clock.advance(0)
         env.pump = pump
+        env.tick = pump           # one loop iteration: callbacks run synchronously on Twisted
 
         def advance(dt):
             # step to every pending deadline so that callbacks see the time of their own deadline
@@ -67,6 +68,11 @@ def setup(fw):
                     self._run_once()
                 raise RuntimeError("loop does not quiesce")
 
+            def tick(self):
+                """exactly one loop iteration: the callbacks that are ready now; what they schedule waits"""
+                self.call_soon(lambda: None)
+                self._run_once()
+
             def advance(self, dt):
                 target = self._vt + dt
                 for _ in range(100000):
@@ -84,6 +90,7 @@ def setup(fw):
         env.loop = loop
         env.now = loop.time
         env.pump = loop.pump
+        env.tick = loop.tick
         env.advance = loop.advance
         env.pending_timers = lambda: sorted(h._when for h in loop._scheduled if not h._cancelled)
     import txaio as _t
